@@ -1071,7 +1071,7 @@ class Key(object):
             self.is_private = True  # Ignore provided attribute
         else:
             try:
-                kf = get_key_format(import_key)
+                kf = get_key_format(import_key, True if is_private else None)
             except BKeyError:
                 if strict:
                     raise BKeyError("Unrecognised key format")
